@@ -12,6 +12,7 @@ package e2e
 // the data datagrams T emits (and to whom) are observed.
 
 import (
+	"encoding/binary"
 	"bytes"
 	"encoding/json"
 	"fmt"
@@ -34,11 +35,49 @@ type c17Vec struct {
 		L     string `json:"l"`
 		La    []int  `json:"la"`
 		Prior bool   `json:"prior"`
+		Enc   string `json:"enc"`
 	} `json:"in"`
 	Exp struct {
 		Auth bool     `json:"auth"`
 		To   []string `json:"to"`
 	} `json:"exp"`
+}
+
+// c17Mapped6 builds an IPv6/UDP packet whose addresses are the IPv4-mapped forms (::ffff:a.b.c.d) of from and to.
+func c17Mapped6(from, to netip.Addr, sport, dport uint16, payload []byte) []byte {
+	p := make([]byte, 40+8+len(payload))
+	p[0] = 0x60
+	binary.BigEndian.PutUint16(p[4:], uint16(8+len(payload)))
+	p[6], p[7] = 17, 64
+	m := func(a netip.Addr) []byte { x := netip.AddrFrom16(a.As16()).As16(); return x[:] } // As16 of an IPv4 address is its mapped form
+	copy(p[8:24], m(from))
+	copy(p[24:40], m(to))
+	u := p[40:]
+	binary.BigEndian.PutUint16(u[0:], sport)
+	binary.BigEndian.PutUint16(u[2:], dport)
+	binary.BigEndian.PutUint16(u[4:], uint16(8+len(payload)))
+	copy(u[8:], payload)
+	var sum uint32
+	add := func(b []byte) {
+		for i := 0; i+1 < len(b); i += 2 {
+			sum += uint32(b[i])<<8 | uint32(b[i+1])
+		}
+		if len(b)%2 == 1 {
+			sum += uint32(b[len(b)-1]) << 8
+		}
+	}
+	add(p[8:40])
+	add([]byte{0, 0, byte(len(u) >> 8), byte(len(u)), 0, 0, 0, 17})
+	add(u)
+	for sum>>16 != 0 {
+		sum = sum&0xffff + sum>>16
+	}
+	c := ^uint16(sum)
+	if c == 0 {
+		c = 0xffff
+	}
+	binary.BigEndian.PutUint16(u[6:], c)
+	return p
 }
 
 func c17Addr(b []int) netip.Addr {
@@ -142,6 +181,12 @@ func TestVerif_C17E2E(t *testing.T) {
 				res.Hit("l:" + v.In.L)
 				detail := map[string]any{"vector": v.In, "expected": v.Exp}
 				key := fmt.Sprintf("%s:%s:r-%s:l-%s", v.In.Dir, v.In.Who, v.In.R, v.In.L)
+				pkt := vUDPPacket
+				if v.In.Enc == "mapped" {
+					pkt = c17Mapped6
+					key += ":ipv4-mapped-in-ipv6"
+					res.Hit("enc:mapped")
+				}
 				if v.In.Prior {
 					key += ":after-owner-flow"
 				}
@@ -162,7 +207,7 @@ func TestVerif_C17E2E(t *testing.T) {
 						}
 					}
 					who := peers[v.In.Who]
-					if !who.Ctrl.VerifSendOnTunnel(header.Message, 0, w.T.Vpn[0].Addr(), vUDPPacket(ra, la, sport, 5000, marker)) {
+					if !who.Ctrl.VerifSendOnTunnel(header.Message, 0, w.T.Vpn[0].Addr(), pkt(ra, la, sport, 5000, marker)) {
 						res.Hit("send-failed")
 						continue
 					}
@@ -196,7 +241,7 @@ func TestVerif_C17E2E(t *testing.T) {
 						}
 					}
 				} else {
-					w.TunSend(w.T, vUDPPacket(la, ra, sport, 5000, marker))
+					w.TunSend(w.T, pkt(la, ra, sport, 5000, marker))
 					to := map[string]bool{}
 					for _, d := range w.T.TakeUDP() {
 						if d.H.Type == header.Message && d.H.Subtype == header.MessageNone {
